@@ -60,7 +60,7 @@ def run(c: Check):
                      name="sanity: %s" % what)
 
     n_pkg = 50000 if th else 2100
-    n_sock = 2400 if th else 320
+    n_sock = 2400 if th else 450
     out, _ = c.go_harness("internal/dnsserver", "^TestVerifC08Pkg$", files=["c08_test.go"], env={"VERIF_N": n_pkg},
                           timeout=1500)
     ev = read_ndjson(out)
